@@ -13,7 +13,7 @@ RULE = ('Hypothesis-generated netlists (XOR-rich, all primitives, forks, state e
         'slots of c) x strip_forks x optionally an earlier, different assignment and propagation on the same simulator object. Oracle: own Boolean evaluator: on every line the waveform starts at f(initial values) and its entry parity '
         'ends at f(final values); s[3]/s[6] report the same; every waveform is well formed. non-trivial: some line overflowed or carries >= 3 '
         'transitions; distinct by SHA-1 of the case.')
-ASSUMPTIONS = ['c_reuse off so that every line can be read back after propagation',
+ASSUMPTIONS = ['per-line checks need c_reuse off (every line readable); a third of the cases use c_reuse and check the captured values only',
                'numba absent: kernels run as plain Python (same source)']
 
 XOR_RICH = ['XOR', 'XNOR', 'XOR', 'XNOR', 'AND', 'NAND', 'OR', 'NOR', 'BUF', 'INV', 'AO21', 'OA21', 'AOI21', 'OAI21', 'AO22', 'OA22',
@@ -29,7 +29,8 @@ def cases(draw, tier):
     waves = draw(W.input_waves(n, lanes))
     pre = draw(st.one_of(st.none(), W.input_waves(n, lanes)))      # an earlier assignment + propagation on the same simulator object
     return dict(nl=nl, lanes=lanes, waves=waves, pre=pre, dpool=draw(W.DELAY_POOL), caps=draw(W.CAPS),
-                ctime=draw(st.one_of(st.none(), st.integers(0, 600))), f64=draw(st.booleans()), strip_forks=draw(st.booleans()), cuda=draw(st.sampled_from([False, False, False, True])))
+                c_reuse=draw(st.sampled_from([False, False, True])), props=draw(st.integers(1, 2)),
+                api=draw(st.integers(0, 3)), ctime=draw(st.one_of(st.none(), st.integers(0, 600))), f64=draw(st.booleans()), strip_forks=draw(st.booleans()), cuda=draw(st.sampled_from([False, False, False, True])))
 
 
 def run(case, b, c_reuse=False, caps=None, cls=None):
@@ -39,13 +40,18 @@ def run(case, b, c_reuse=False, caps=None, cls=None):
     delays = W.delays_for(nlines, case['dpool'], dtype='float64' if case.get('f64') else 'float32',
                           polarity_independent=case.get('pol_indep', False))
     caps = W.caps_for(nlines, case['caps']) if caps is None else caps
+    if case.get('api') == 1 and not isinstance(caps, int):
+        caps = [int(x) for x in caps]                  # a plain list instead of an ndarray
+    if case.get('api') == 2:
+        delays = delays[0]                             # a single dataset without the dataset axis
     klass = cls or (WaveSimCuda if case.get('cuda') else WaveSim)
     sim = klass(b.c, delays, sims=case['lanes'], c_caps=caps, c_reuse=c_reuse, strip_forks=case['strip_forks'])
     if case.get('pre'):         # results must only depend on the current assignment, not on what the simulator did before
         W.apply_inputs(sim, b, nl, case['pre'])
         sim.c_prop(); sim.c_to_s()
     W.apply_inputs(sim, b, nl, case['waves'])
-    sim.c_prop()
+    for _ in range(case.get('props', 1)):          # propagating again without a new assignment must give the same waveforms
+        sim.c_prop()
     if case.get('ctime') is None:
         sim.c_to_s()
     else:
@@ -57,14 +63,14 @@ def prop(case):
     nl, lanes = case['nl'], case['lanes']
     mask = (1 << lanes) - 1
     b = build(nl)
-    sim = run(case, b)
+    sim = run(case, b, c_reuse=bool(case.get('c_reuse')))
     npi = nl['pi']
     ini, fin = W.init_final_bits(case['waves'], lanes)
     sig_i = rm.eval2(nl, ini[:npi], ini[npi:], mask)
     sig_f = rm.eval2(nl, fin[:npi], fin[npi:], mask)
     n_ovl = 0
     n_busy = 0
-    for line in b.c.lines:
+    for line in ([] if case.get('c_reuse') else b.c.lines):       # with memory reuse only the captured values can be read
         src = b.line_src[line.index]
         for lane in range(lanes):
             w = W.line_wave(sim, line.index, lane)
@@ -98,6 +104,10 @@ def prop(case):
     if not isinstance(case['caps'], int): labels.append('per_line_caps')
     if case['f64']: labels.append('float64_delays')
     if case.get('pre'): labels.append('simulator_reused')
+    if case.get('c_reuse'):
+        labels.append('c_reuse_outputs_only')
+        n_busy = any(float(sim.s[5, row, lane]) > float(sim.s[4, row, lane]) for row, _, _ in rows for lane in range(lanes))
+    if case.get('props', 1) > 1: labels.append('propagated_twice')
     return Obs(bool(n_ovl or n_busy), labels, checks=len(b.c.lines) * lanes)
 
 
